@@ -1,4 +1,4 @@
-PROOF = dict(
+PROOFS = [dict(
     name="spawn_docmd", properties=["C18", "C04"], units=["harness.c"], mode="dfcc", timeout=300, min_tagged=8,
     loops=[dict(function="docmd", head="for (i = 0;i < messid.len;++i)",
                 invariants="0 <= i && (unsigned)i <= messid.len && messid.s == mid && messid.len < 256 && g_nerr == 0 && g_errbyte == 0 && !g_opened && !g_spawned"
@@ -15,4 +15,23 @@ PROOF = dict(
         dict(name="length-test-dropped", file="spawn.c", literal=True, pattern=" if (messid.len > 100) { err(\"DInternal error: messid too long. (#5.3.5)\\n\"); return; }\n", repl="", expect=r"C18: message names are non-empty"),
         dict(name="in-use-test-dropped", file="spawn.c", literal=True, pattern=" if (d[delnum].used) { err(\"ZInternal error: delnum in use. (#4.3.5)\\n\"); return; }\n", repl="", expect=r"C18: a delivery command is honoured only"),
     ],
-)
+),
+ dict(name="spawn_getcmd", properties=["C18"], entry="h_getcmd", units=["getcmd.c", "getcmd_stubs2.c"], remove_bodies={"getcmd.c": ["docmd"]}, mode="dfcc", timeout=300, min_tagged=8,
+    title="spawn.c getcmd(): command framing - number byte, name, sender, recipient, each byte stored unchanged in its field, docmd exactly once per complete command",
+    functions=["spawn.c:getcmd"],
+    loops=[dict(function="getcmd", head="for (i = 0;i < r;++i)",
+                invariants="0 <= i && i <= r && r == g_r && r <= 1024 && 0 <= g_app && 0 <= g_start && g_app <= i && g_start <= i"
+                           " && ((g_st == 0 && (stage == 0 || (stage == 1 && messid.len == 0 && i >= 1 && delnum == (int)(unsigned char)cmdbuf[i - 1]))) || (1 <= g_st && g_st <= 3 && stage == g_st && delnum == g_delnum))"
+                           " && i == g_app + g_start + ((g_st == 0 && stage == 1) ? 1 : 0)"
+                           " && (g_st == 0 ? (g_failed == 0 && flagabort == 0) : ((flagabort != 0) == (g_failed != 0)))"
+                           " && (g_new ? (g_st == 2 ? sender.len == 0 : (g_st == 3 && recip.len == 0)) : 1)",
+                assigns="i, ch, stage, flagabort, delnum, messid.len, sender.len, recip.len, g_st, g_app, g_start, g_new, g_failed, g_delnum, g_docmds",
+                decreases="r - i", symbols=["i", "r", "ch"])],
+    replaced=["docmd (proved in spawn_docmd)", "stralloc_append (specification automaton; storage modelled by length only)", "read (environment)"],
+    canaries=[
+        dict(name="sender-not-reset", file="spawn.c", literal=True, pattern="       sender.len = 0; stage = 2; break;", repl="       stage = 2; break;", expect=r"."),
+        dict(name="recipient-into-sender", file="spawn.c", literal=True, pattern="       if (!stralloc_append(&recip,&ch)) flagabort = 1;", repl="       if (!stralloc_append(&sender,&ch)) flagabort = 1;", expect=r"C18: the bytes of a delivery command go to"),
+        dict(name="abort-flag-not-cleared", file="spawn.c", literal=True, pattern="       flagabort = 0; stage = 0; break;", repl="       stage = 0; break;", expect=r"."),
+        dict(name="docmd-on-sender-end", file="spawn.c", literal=True, pattern="       recip.len = 0; stage = 3; break;", repl="       recip.len = 0; docmd(); stage = 3; break;", expect=r"C18: a delivery command is executed exactly when"),
+    ]),
+]
